@@ -87,8 +87,17 @@ func (o Oracle) RunCase(c *core.Case, chunks, perStratum, uniform int) {
 	if chunk == 0 && c.Idx/chunks < 2 {
 		c.Sample(map[string]any{"workload": w, "first_steps": steps[:min(4, len(steps))], "file_ops": dr.Total, "points_in_chunk": len(pts)})
 	}
-	for _, p := range pts {
-		out := RunPoint(c, w, p, maint)
+	baseMaint := maint
+	for pi, p := range pts {
+		maint := baseMaint
+		pm := maint
+		if o.Maint && pi%3 == 2 {
+			// every third point: no maintenance calls, but a second crash while recovery's
+			// own background flushes / compactions run (no client writes in between)
+			maint = "crash-again"
+			pm = fmt.Sprintf("crash-again@%d", 1+(p.KillAt*7+int64(pi)*13+int64(c.Idx))%30)
+		}
+		out := RunPoint(c, w, p, pm)
 		c.Count("evaluations", 1)
 		if out.Err != nil {
 			c.Inconclusive(fmt.Sprintf("%s point %+v: %v", wname, p, out.Err))
@@ -124,9 +133,16 @@ func (o Oracle) RunCase(c *core.Case, chunks, perStratum, uniform int) {
 			continue
 		}
 		first := out.Verify.First
+		if first == nil && maint == "crash-again" {
+			c.Count("second_crash_before_first_dump_was_complete", 1)
+			continue
+		}
 		if first == nil {
 			c.Inconclusive("verifier produced no dump")
 			continue
+		}
+		if maint == "crash-again" {
+			c.Count("second_crashes_executed", 1)
 		}
 		switch o.ID {
 		case "C09":
